@@ -597,10 +597,18 @@ func (m *machine) lowerVFcvtFromInt(x, ret ssa.Value, lane ssa.VecLane, signed b
 			xx := m.getOperand_Mem_Reg(m.c.ValueDefinition(x))
 			m.insert(m.allocateInstr().asXmmUnaryRmR(sseOpcodeCvtdq2pd, xx, m.c.VRegOf(ret)))
 		} else {
+			// Each constant gets its own virtual register, and both are loaded before xx is modified in place: the register
+			// allocator stores a spilled register once after its definition, so a register must not be defined twice, and
+			// nothing which might take the register of xx may come between the instructions modifying it.
 			maskReg := m.c.AllocateVReg(ssa.TypeV128)
 			maskLabel := m.getOrAllocateConstLabel(&m.constF64x2CvtFromIMaskIndex, f64x2CvtFromIMask[:])
 			// maskReg = [0x00, 0x00, 0x30, 0x43, 0x00, 0x00, 0x30, 0x43, 0x00, 0x00, 0x00, 0x00, 0x00, 0x00, 0x00, 0x00]
 			m.insert(m.allocateInstr().asXmmUnaryRmR(sseOpcodeMovdqu, newOperandMem(m.newAmodeRipRel(maskLabel)), maskReg))
+
+			// twop52Reg = [float64(0x1.0p52), float64(0x1.0p52)]
+			twop52Reg := m.c.AllocateVReg(ssa.TypeV128)
+			twop52Label := m.getOrAllocateConstLabel(&m.constTwop52Index, twop52[:])
+			m.insert(m.allocateInstr().asXmmUnaryRmR(sseOpcodeMovdqu, newOperandMem(m.newAmodeRipRel(twop52Label)), twop52Reg))
 
 			_xx := m.getOperand_Reg(m.c.ValueDefinition(x))
 			xx := m.copyToTmp(_xx.reg())
@@ -611,15 +619,11 @@ func (m *machine) lowerVFcvtFromInt(x, ret ssa.Value, lane ssa.VecLane, signed b
 			//     ^See https://stackoverflow.com/questions/13269523/can-all-32-bit-ints-be-exactly-represented-as-a-double
 			m.insert(m.allocateInstr().asXmmRmR(sseOpcodeUnpcklps, newOperandReg(maskReg), xx))
 
-			// maskReg = [float64(0x1.0p52), float64(0x1.0p52)]
-			maskLabel = m.getOrAllocateConstLabel(&m.constTwop52Index, twop52[:])
-			m.insert(m.allocateInstr().asXmmUnaryRmR(sseOpcodeMovdqu, newOperandMem(m.newAmodeRipRel(maskLabel)), maskReg))
-
 			// Now, we get the result as
 			// 	xx = [float64(uint32(d1)), float64(uint32(d2))]
 			// because the following equality always satisfies:
 			//  float64(0x1.0p52 + float64(uint32(x))) - float64(0x1.0p52 + float64(uint32(y))) = float64(uint32(x)) - float64(uint32(y))
-			m.insert(m.allocateInstr().asXmmRmR(sseOpcodeSubpd, newOperandReg(maskReg), xx))
+			m.insert(m.allocateInstr().asXmmRmR(sseOpcodeSubpd, newOperandReg(twop52Reg), xx))
 
 			m.copyTo(xx, m.c.VRegOf(ret))
 		}
